@@ -6,6 +6,7 @@ package main
 import (
 	"fmt"
 
+	"github.com/piotrnar/gocoin/lib/btc"
 	"verif/chainkit"
 )
 
@@ -141,6 +142,76 @@ func init() {
 			b4 := s.makeBlock(b3, "double-spend", all)
 			s.deliverAll(x1, b2, a2, a3, b3, b4)
 		}},
+		{name: "tie-after-failed-reorg-first-child-is-first-seen", opts: tn, run: func(s *scen) {
+			// as above, but the first child of x1 is also the side that was seen first: x1; a2 (first child); b2; a3 (tip);
+			// b3 (equal work, later); b4 invalid -> the fall-back must return to a3. (A fall-back in which the LAST
+			// child wins equal work ends on b3: neither first seen nor the documented first-child choice.)
+			tip := s.base(102)
+			all := allCoins(s)
+			x1 := s.makeBlock(tip, "", all)
+			a2 := s.makeBlock(x1, "", all)
+			b2 := s.makeBlock(x1, "", all)
+			a3 := s.makeBlock(a2, "", all)
+			b3 := s.makeBlock(b2, "", all)
+			b4 := s.makeBlock(b3, "double-spend", all)
+			if eval(b4); b4.valid {
+				s.tieFail("corpus-setup", "b4 was meant to be invalid")
+				return
+			}
+			s.deliverAll(x1, a2, b2, a3, b3)
+			if s.deliver(b4) == "movefailed" {
+				r.Hit("corpus/fall-back-with-equal-work-leaves")
+			}
+			s.idle()
+			s.undoLast()
+		}},
+		{name: "heavier-not-taller", opts: tn, genesisBits: heavyBits, run: func(s *scen) {
+			// H = work of a heavy block (bits 0x201fffff), L = of a light one (0x207fffff): H = 4.0000014 L.
+			tip := s.base(102) // heavy blocks (except block 1)
+			all := allCoins(s)
+			var a []*rBlock
+			p := tip
+			for i := 0; i < 5; i++ {
+				p = s.makeBlockL(p, "", all, true)
+				a = append(a, p)
+			}
+			b1 := s.makeBlockL(tip, "", all, false)
+			b2 := s.makeBlockL(b1, "", all, false)
+			if tip.Bits != heavyBits || a[0].Bits != chainkit.EasyBits || a[4].Bits != chainkit.EasyBits || b1.Bits != heavyBits || b2.Bits != heavyBits {
+				s.tieFail("mixed-bits-setup", fmt.Sprintf("unexpected bits: base %08x a1 %08x a5 %08x b1 %08x b2 %08x", tip.Bits, a[0].Bits, a[4].Bits, b1.Bits, b2.Bits))
+				return
+			}
+			r.Hit("corpus/bits-differ-between-branches")
+			s.deliverAll(a[:3]...) // tip a3, height 105, work 3L
+			s.deliver(b1)          // height 103, work H > 3L: reorganise to the SHORTER branch
+			s.deliver(a[3])        // height 106, 4L < H: stays aside although taller
+			s.deliver(a[4])        // 5L > H: back to A
+			s.deliver(b2)          // height 104, 2H > 5L: reorganise to the shorter branch again
+			s.idle()
+			s.undoLast()
+			s.undoLast()
+		}},
+		{name: "failed-reorg-mixed-bits-lighter-tip", opts: tn, genesisBits: heavyBits, run: func(s *scen) {
+			// x1 light (tip, work L); c1 heavy on the same parent (H > L: reorganise to c1); x2 on x1 invalid when connected,
+			// x3..x5 light: stored aside until 5L > H, then the reorganisation fails at x2. The fall-back values every
+			// leaf by the work of the blocks ABOVE it: x1 and c1 tie at 0, the first child x1 wins although c1 is heavier.
+			tip := s.base(102)
+			all := allCoins(s)
+			x1 := s.makeBlockL(tip, "", all, true)
+			c1 := s.makeBlockL(tip, "", all, false)
+			x2 := s.makeBlockL(x1, "double-spend", all, true)
+			if eval(x2); x2.valid || x1.Bits != chainkit.EasyBits || c1.Bits != heavyBits {
+				s.tieFail("mixed-bits-setup", fmt.Sprintf("x2 valid=%v, bits x1 %08x c1 %08x", x2.valid, x1.Bits, c1.Bits))
+				return
+			}
+			x := []*rBlock{x2}
+			for i := 0; i < 3; i++ {
+				x = append(x, s.makeBlockL(x[len(x)-1], "", all, true))
+			}
+			s.deliverAll(x1, c1)
+			s.deliverAll(x...)
+			s.idle()
+		}},
 		{name: "fork-at-genesis", opts: tn, run: func(s *scen) {
 			// the root node has TxCount == 0, and MoveToBlock refuses when `cur.Parent.TxCount == 0`
 			all := map[outpoint]rCoin{}
@@ -155,9 +226,17 @@ func init() {
 			all := allCoins(s)
 			eval(tip)
 			// block 1: spend ONE output of a multi-output coinbase, then spend that transaction's output inside the block
-			tg := &txGen{s: s, view: tip.view, height: tip.Height + 1, used: map[outpoint]bool{}, local: map[outpoint]rCoin{}}
-			ops := tg.spendable(false)
-			t1 := tg.spend(ops[:1], 3, 0, false)
+			var tg *txGen
+			var ops []outpoint
+			var t1 *btc.Tx
+			for { // until outputs 0 and 2 of t1 are of a kind the next transaction can spend
+				tg = &txGen{s: s, view: tip.view, height: tip.Height + 1, used: map[outpoint]bool{}, local: map[outpoint]rCoin{}}
+				ops = tg.spendable(false)
+				t1 = tg.spend(ops[:1], 3, 0, false)
+				if scriptClass(t1.TxOut[0].Pk_script) == "" && scriptClass(t1.TxOut[2].Pk_script) == "" {
+					break
+				}
+			}
 			tg.spend([]outpoint{{t1.Hash.Hash, 0}, {t1.Hash.Hash, 2}}, 2, 0, false) // t1 keeps output 1 only
 			tg.spend([]outpoint{ops[len(ops)-1]}, 1, 0, false)
 			b1 := s.addBlock(tip, blockOpts{txs: tg.txs, label: "partial+chain"})
